@@ -536,6 +536,7 @@ namespace {
                  return static_cast<const ipr::Node*>(&w.lex.get_sum(wh)); } },
          };
          for (auto& f : fams) {
+            opt.kick();
             // insertion in the order of this job (ascending / descending / bit-reversed key order)
             for (int i = 0; i < N; ++i) {
                (void) f.make(order(ins_order, i));
